@@ -265,4 +265,50 @@ example :
     resumedRun initial [] [([], false), (["r"], false), (["u"], true)] = [] := by
   refine ⟨by decide, by decide, by decide, by decide⟩
 
+/-! ### The resumed filter across restarts (seed C02f's class, route 1)
+
+A finished resuming handler is left out of the passes of the process it finished in and is selected again by the
+next process (the memory is gone). Whatever the in-process memory holds at each pass — grown, emptied by a restart,
+anything — a handler recorded as finished on the object is not invoked again while the cycle is open. -/
+
+/-- One pass: the registry's selection, which of it is resuming, and what the process remembers at that moment. -/
+structure StepR where
+  now : Tick
+  now1 : Tick
+  exec : Id → Nat → Outcome
+  raw : List Id
+  initial : Id → Bool
+  resumed : List Id
+  limits : Id → Limits
+  lifecycle : Lifecycle
+
+def StepR.toV (s : StepR) : StepV :=
+  { now := s.now, now1 := s.now1, exec := s.exec, selected := selectResumed s.raw s.initial s.resumed,
+    limits := s.limits, lifecycle := s.lifecycle }
+
+theorem finished_never_invoked_resumed (owned : List Id) (reason : String)
+    (hr : handlerReasons.contains reason = true) (steps : List StepR)
+    (hsub : ∀ s ∈ steps, ∀ i ∈ s.raw, i ∈ owned)
+    (P : Store) (hne : ∀ i ∈ owned, ∀ r, P i = some r → r.purpose = none ∨ r.purpose = some reason)
+    (i : Id) (r : Rec) (ho : i ∈ owned) (hP : P i = some r) (hfin : r.finished = true) :
+    ∀ l ∈ invokedSeqV owned reason P (steps.map StepR.toV), ∀ n, (i, n) ∉ l := by
+  apply finished_never_invoked_varying owned reason hr (steps.map StepR.toV) _ P hne i r ho hP hfin
+  intro sv hsv j hj
+  rw [List.mem_map] at hsv
+  obtain ⟨s, hs, rfl⟩ := hsv
+  exact hsub s hs j (selectResumed_sub s.raw s.initial s.resumed j hj)
+
+-- non-vacuity (the seed's first history): `r` resuming, `u` failing temporarily; pass 2 leaves `r` out (remembered),
+-- pass 3 is the next process (nothing remembered): `r` is selected again and NOT invoked again
+example :
+    let ok : Outcome := { final := true, delay := none, error := false, subrefs := [] }
+    let again : Outcome := { final := false, delay := some 0, error := true, subrefs := [] }
+    let st (mem : List Id) : StepR :=
+      { now := 0, now1 := 0, exec := fun i _ => if i = "r" then ok else again, raw := ["r", "u"],
+        initial := fun i => i == "r", resumed := mem, limits := fun _ => ⟨none, none⟩, lifecycle := .allAtOnce }
+    ([st [], st ["r"], st []].map StepR.toV).map (·.selected) = [["r", "u"], ["u"], ["r", "u"]] ∧
+    invokedSeqV ["r", "u"] "update" (fun _ => none) ([st [], st ["r"], st []].map StepR.toV)
+      = [[("r", 0), ("u", 0)], [("u", 1)], [("u", 2)]] := by
+  refine ⟨by decide, by decide⟩
+
 end Kopf.C02
